@@ -17,8 +17,8 @@ Trace == ndJsonDeserialize("trace.ndjson")
 MonRev  == 1..40
 MonProc == 0..4
 
-VARIABLES l, S, B, lab, pre, sum, ended, esum, creators, everDep
-mvars == <<l, S, B, lab, pre, sum, ended, esum, creators, everDep>>
+VARIABLES l, S, B, lab, pre, sum, ended, esum, creators, everDep, fgn
+mvars == <<l, S, B, lab, pre, sum, ended, esum, creators, everDep, fgn>>
 
 (* ----- JSON -> abstract state ------------------------------------------- *)
 
@@ -75,6 +75,7 @@ MonInit ==
   /\ ended = 0 /\ esum = NoSum
   /\ creators = [r \in MonRev |-> {}]
   /\ everDep = {}
+  /\ fgn = ""
 
 FaultClass(e) == IF e.kind = "store" THEN "store" ELSE IF e.kind = "wait" THEN "wait" ELSE "res"
 
@@ -98,6 +99,8 @@ MonNext ==
      \* its superseded revisions as once deployed); forgotten when the record is deleted
      /\ everDep' = IF e.ev = "reset" THEN {r \in MonRev : ns.store[r].st \in {"deployed", "superseded"}}
                    ELSE {r \in MonRev : ns.store[r].st # "none" /\ (r \in everDep \/ ns.store[r].st = "deployed")}
+     \* the stored histories of the other releases in the namespace, as the scenario found them
+     /\ fgn' = IF e.ev = "reset" THEN e.state.foreign ELSE fgn
      /\ CASE e.ev = "reset" ->
                /\ pre' = [q \in MonProc |-> NoState] /\ sum' = [q \in MonProc |-> NoSum]
                /\ ended' = 0 /\ esum' = NoSum
@@ -167,6 +170,8 @@ P_C02_UninstallListed ==
      /\ EPre.store[MaxOf(Revs(EPre.store))].st # "uninstalled") =>
     LET man == EPre.store[MaxOf(Revs(EPre.store))].man IN
     \A r \in DOMAIN man : man[r].pol = "keep" => r \in Range(Trace[l].kept)
+\* the stored records of other releases (names extending / prefixing this one) are objects outside the release
+P_C02_Foreign == (l > 0 /\ l <= Len(Trace)) => Trace[l].state.foreign = fgn
 P_C02_Bystanders   == IsCall => C02_Bystanders(pre[CurProc].store, B, S, CurU.chart)
 
 P_C03_Error         == AtEnd => C03_Error(esum)
@@ -235,6 +240,7 @@ Checks == <<
   [n |-> "C02_Success",       v |-> P_C02_Success],
   [n |-> "C02_Uninstall",     v |-> P_C02_Uninstall],
   [n |-> "C02_UninstallListed", v |-> P_C02_UninstallListed],
+  [n |-> "C02_Foreign",       v |-> P_C02_Foreign],
   [n |-> "C02_Bystanders",    v |-> P_C02_Bystanders],
   [n |-> "C03_Error",         v |-> P_C03_Error],
   [n |-> "C03_Failed",        v |-> P_C03_Failed],
@@ -262,7 +268,7 @@ Checks == <<
 \* (IF, not \/: in an action TLC would enumerate both disjuncts as separate successors)
 Report == \A i \in DOMAIN Checks : IF Checks[i].v THEN TRUE ELSE PrintT(<<"MONVIOL", l, Checks[i].n>>)
 
-MonStep == (MonNext /\ Report) \/ (l = Len(Trace) /\ l' = l + 1 /\ Report /\ UNCHANGED <<S, B, lab, pre, sum, ended, esum, creators, everDep>>)
+MonStep == (MonNext /\ Report) \/ (l = Len(Trace) /\ l' = l + 1 /\ Report /\ UNCHANGED <<S, B, lab, pre, sum, ended, esum, creators, everDep, fgn>>)
 
 MonSpec == MonInit /\ [][MonStep]_mvars
 
